@@ -27,5 +27,6 @@ for p in "$@"; do
   first=$(cd /verif && ls -t replays/${p}-*.json 2>/dev/null | head -1)
   res="$res $p:violations=$out"
 done
+(cd /verif && ./check setup >/dev/null 2>&1)
 echo "RESULT patch=$(basename $patch) suite_rc=$suite_rc($(tail -1 /tmp/suite_out_$$)) demo_clean_rc=$clean_rc demo_mutant_rc=$mut_rc checks:$res"
 rm -f /tmp/demo_out_$$ /tmp/suite_out_$$ /tmp/apply_err_$$
